@@ -1,8 +1,9 @@
 (** C09 — Result registers are fresh and strictly increasing within a function.
     Statement only; proofs are in [Proofs/]. *)
 From Coq Require Import Sorted.
-From SA Require Import Model Monitors.
-From SA.Proofs Require Import Reach InvReg MonitorsSound.
+From SA Require Import Model.
+From SA.Mon Require Import C09.
+From SA.Proofs Require Import Reach InvReg MonC09.
 Local Open Scope list_scope.
 
 (** For every program (accepted or not) on which the analysis terminates, in every function's
